@@ -487,7 +487,7 @@ def main():
                   "changed bytes after the 8th / after a NUL / bit 7 (accept), libcrypt-made hashes (accept). A case is non-trivial if it has a distinct (DES key, salt) resp. (kind, hash, DES key)",
              extra={"table_coverage": table_cov, "oracle_comparisons": {"libcrypt_ctypes": n_oracle, "perl_crypt": n_perl, "DesSpec_cases": len(l4)}},
              assumptions=["the reject clause ('rejected for any password whose first eight bytes differ in the low seven bits') is exercised by differential testing only: proving it would assert that DES under 25 salted iterations has no colliding keys on the zero block, which nobody has proved (C02_reject_partial says what is proved)",
-                          "whole-function equality fcrypt = textbook crypt(3) is validated by the 4-way correspondence on every case, not proved (C02_equals_crypt3_partial lists the proved conjuncts)",
+                          "whole-function equality model-of-fcrypt = textbook crypt(3) (Model/C02_DesSpec.v) is a theorem for all passwords and alphabet salts (C02_equals_crypt3); what stays validated, by the 4-way correspondence on every case, is that the model is the Go code (Go <-> extracted model) and that the textbook specification is the crypt(3) of libcrypt / perl (extracted DesSpec <-> oracles)",
                           "libcrypt (libxcrypt's DES crypt) and perl's crypt are validation oracles, not part of any theorem",
                           "a salt shorter than 2 bytes or with a byte >= 128 is outside the property: Go panics (con_salt has 128 entries), the model says Crash; GenPasswd masks its salt to 7 bits and stored hashes are ASCII"])
 
